@@ -16,6 +16,8 @@ def attempt(ctx, label, fn, expect_ok=True):
     except SIGNALS:
         raise
     except Exception as e:  # noqa: BLE001  (BaseException = path steering, must propagate)
+        if getattr(ctx, "symbolic", False):
+            ctx.eng.resurface(e)
         if expect_ok:
             ctx.fail(label + ":raises", f"{type(e).__name__}: {str(e)[:200]}")
 
